@@ -443,10 +443,32 @@ def delegation(chk, lab):
 def phys_offset_rule(chk, I, rule='delegation'):
     """PhysOffset::frame_to_pointer = offset + frame address (what makes an OffsetPageTable read the tables where they are)"""
     # PhysOffset::frame_to_pointer = offset + frame address
-    fn_ = '<%soffset_page_table::PhysOffset as %smapped_page_table::PageTableFrameMapping>::frame_to_pointer' % (MP, MP)
+    # the frame mapping an OffsetPageTable uses is whatever its public constructor stores: the crate's own implementation of
+    # PageTableFrameMapping (a private type - found through the trait, not by name), holding the offset given to `new`
+    TRAIT = MP + 'PageTableFrameMapping'
+    impls = [im for im in I.facts['impls'] if im['trait'] == TRAIT and (im['self'].get('name') or '').split('::')[0] in ('structures', 'addr', 'instructions', 'registers')]
     st = State()
     off = I.sym_value(adt('addr::VirtAddr'), 'off')
-    st.mem[('arg', 'self')] = Struct(MP + 'offset_page_table::PhysOffset', [off])
+    st.mem[('obj', 'P4')] = Opaque('root-table')
+    built = I.run(OFFSET + "::<'_>::new", [Ref(('obj', 'P4')), off], st)
+    mapping = None
+    if len(impls) == 1 and len(built) == 1 and built[0].kind == 'ret':
+        want = impls[0]['self'].get('name')
+        todo = [built[0].val]
+        while todo:
+            v = todo.pop()
+            if isinstance(v, Struct):
+                if v.name == want:
+                    mapping = v
+                    break
+                todo.extend(v.fields)
+    if mapping is None:
+        chk.unproven(rule, 'frame mapping of OffsetPageTable', 'OffsetPageTable::new does not store one implementation of PageTableFrameMapping (found %d impls)' % len(impls))
+        return
+    fn_ = '<%s as %s>::frame_to_pointer' % (mapping.name, TRAIT)
+    st = built[0].st
+    st.events = []
+    st.mem[('arg', 'self')] = mapping
     fr = I.sym_value(adt(FR, size_ty('Size4KiB')), 'frame')
     outs = I.run(fn_, [Ref(('arg', 'self')), fr], st)
     chk.count('function-instances')
@@ -521,8 +543,15 @@ def constructors(chk, lab):
     """the mapper objects are exactly what they were built from: `new` stores the given root table and frame mapping / offset / recursive
     index (which every operation above then reads), and the accessors hand the same root table back"""
     I = lab.I
-    PHYSOFF = MP + 'offset_page_table::PhysOffset'
-    WALKER = MP + 'mapped_page_table::PageTableWalker'
+
+    def leaves(v):
+        if isinstance(v, Struct):
+            yield v
+            for x in v.fields:
+                for y in leaves(x):
+                    yield y
+        else:
+            yield v
     root = Ref(('obj', 'P4'))
 
     def run(fn_, args, st=None, sub=None):
@@ -532,17 +561,17 @@ def constructors(chk, lab):
     def one(outs):
         return len(outs) == 1 and outs[0].kind == 'ret'
     # MappedPageTable::new(table, mapping)
-    fn_ = MAPPED + "::<'a, P>::new"
+    fn_ = MAPPED + "::<'_, P>::new"
     o = run(fn_, [root, Opaque('the-mapping')])
     ok = one(o)
     if ok:
         v = o[0].val
-        parts = [x for x in v.fields]
+        parts = list(leaves(v))
         ok = isinstance(v, Struct) and v.name == MAPPED and any(isinstance(x, Ref) and x.loc == ('obj', 'P4') and not x.path for x in parts) and \
-            any(isinstance(x, Struct) and x.name == WALKER and any(isinstance(y, Opaque) and y.tag == 'the-mapping' for y in x.fields) for x in parts)
+            any(isinstance(y, Opaque) and y.tag == 'the-mapping' for y in parts)
     chk.ob('constructors', 'MappedPageTable::new stores the given root table and frame mapping', ok, 'paths %r' % (o,), fn_site(I, fn_))
     # OffsetPageTable::new(table, offset) = MappedPageTable over PhysOffset { offset }
-    fn_ = OFFSET + "::<'a>::new"
+    fn_ = OFFSET + "::<'_>::new"
     off = I.sym_value(adt('addr::VirtAddr'), 'off')
     o = run(fn_, [root, off])
     ok = one(o)
@@ -550,11 +579,10 @@ def constructors(chk, lab):
         v = o[0].val
         inner_ = v.fields[0] if isinstance(v, Struct) and v.name == OFFSET and v.fields else None
         ok = isinstance(inner_, Struct) and inner_.name == MAPPED and any(isinstance(x, Ref) and x.loc == ('obj', 'P4') and not x.path for x in inner_.fields)
-        w = [x for x in inner_.fields if isinstance(x, Struct) and x.name == WALKER] if ok else []
-        ok = ok and len(w) == 1 and any(isinstance(y, Struct) and y.name == PHYSOFF and same(y.fields[0], off) for y in w[0].fields)
-    chk.ob('constructors', 'OffsetPageTable::new builds a MappedPageTable over the given root table whose frame mapping adds exactly the given offset', ok, 'paths %r' % (o,), fn_site(I, fn_))
+        ok = ok and any(isinstance(y, Struct) and y.name == 'addr::VirtAddr' and same(y, off) for y in leaves(inner_))
+    chk.ob('constructors', 'OffsetPageTable::new builds a MappedPageTable over the given root table whose frame mapping holds exactly the given offset', ok, 'paths %r' % (o,), fn_site(I, fn_))
     # RecursivePageTable::new_unchecked(table, index)
-    fn_ = REC + "::<'a>::new_unchecked"
+    fn_ = REC + "::<'_>::new_unchecked"
     idx = I.sym_value(adt('structures::paging::page_table::PageTableIndex'), 'r')
     o = run(fn_, [root, idx])
     ok = one(o)
@@ -563,9 +591,9 @@ def constructors(chk, lab):
         ok = isinstance(v, Struct) and v.name == REC and any(isinstance(x, Ref) and x.loc == ('obj', 'P4') and not x.path for x in v.fields) and any(same(x, idx) for x in v.fields if isinstance(x, Struct))
     chk.ob('constructors', 'RecursivePageTable::new_unchecked stores the given root table and recursive index', ok, 'paths %r' % (o,), fn_site(I, fn_))
     # accessors: level_4_table / level_4_table_mut return the root the object was built with
-    for impl, names in (('mapped', [MAPPED + "::<'a, P>::level_4_table", MAPPED + "::<'a, P>::level_4_table_mut"]),
-                        ('offset', [OFFSET + "::<'a>::level_4_table", OFFSET + "::<'a>::level_4_table_mut"]),
-                        ('recursive', [REC + "::<'a>::level_4_table", REC + "::<'a>::level_4_table_mut"])):
+    for impl, names in (('mapped', [MAPPED + "::<'_, P>::level_4_table", MAPPED + "::<'_, P>::level_4_table_mut"]),
+                        ('offset', [OFFSET + "::<'_>::level_4_table", OFFSET + "::<'_>::level_4_table_mut"]),
+                        ('recursive', [REC + "::<'_>::level_4_table", REC + "::<'_>::level_4_table_mut"])):
         for fn_ in names:
             if fn_ not in I.fn:
                 chk.unproven('constructors', fn_.split('::')[-1] + ' of ' + impl, 'function not found (anchor lost)')
@@ -576,8 +604,8 @@ def constructors(chk, lab):
             chk.ob('constructors', '%s::%s returns the root table' % ({'mapped': 'MappedPageTable', 'offset': 'OffsetPageTable', 'recursive': 'RecursivePageTable'}[impl], fn_.split('::')[-1]), ok,
                    'paths %r' % (o,), fn_site(I, fn_))
     # OffsetPageTable::phys_offset gives back the offset the object was built with
-    fn_ = OFFSET + "::<'a>::phys_offset"
-    built = run(OFFSET + "::<'a>::new", [root, off])
+    fn_ = OFFSET + "::<'_>::phys_offset"
+    built = run(OFFSET + "::<'_>::new", [root, off])
     if fn_ in I.fn and one(built):
         st = built[0].st
         st.mem[('arg', 'self')] = built[0].val
